@@ -63,23 +63,33 @@ func (o verifC20Observer) EpochEvaluated(trial *Trial, epoch *Generation) {
 	o.s.log = append(o.s.log, fmt.Sprintf("N%d.%d", trial.Id, epoch.Id))
 }
 
-func verifC20Expected(runs, gens int, s *verifC20Script, withObs bool) (want []string, wantErr bool, trials int) {
+// verifC20Expected simulates the protocol of the property statement. turnoverSeesCancel selects whether
+// the epoch turnover of a cancelled context returns an error itself (both are allowed by the statement).
+func verifC20Expected(runs, gens int, s *verifC20Script, withObs bool, turnoverSeesCancel bool) (want []string, wantErr bool) {
+	cancelled := false
 	for r := 0; r < runs; r++ {
 		if withObs {
 			want = append(want, fmt.Sprintf("S%d", r))
 		}
 		for g := 0; g < gens; g++ {
-			if s.cancel != nil && s.cancelAt[0] == r && s.cancelAt[1] == g {
-				return want, true, r
+			if cancelled {
+				return want, true
 			}
 			want = append(want, fmt.Sprintf("E%d.%d", r, g))
 			if r == s.failRun && g == s.failGen {
-				return want, true, r
+				return want, true
+			}
+			if s.cancel != nil && s.cancelAt[0] == r && s.cancelAt[1] == g+1 {
+				cancelled = true
+			}
+			solved := s.solvedAt[r] == g
+			if !solved && cancelled && turnoverSeesCancel {
+				return want, true
 			}
 			if withObs {
 				want = append(want, fmt.Sprintf("N%d.%d", r, g))
 			}
-			if s.solvedAt[r] == g {
+			if solved {
 				break
 			}
 		}
@@ -87,7 +97,7 @@ func verifC20Expected(runs, gens int, s *verifC20Script, withObs bool) (want []s
 			want = append(want, fmt.Sprintf("F%d", r))
 		}
 	}
-	return want, false, runs
+	return want, false
 }
 
 func TestVerifOracle_C20(t *testing.T) {
@@ -142,14 +152,15 @@ func TestVerifOracle_C20(t *testing.T) {
 							obs = verifC20Observer{s}
 						}
 						err := exp.Execute(ctx, genome, s, obs)
-						want, wantErr, _ := verifC20Expected(runs, gens, s, withObs)
+						want, wantErr := verifC20Expected(runs, gens, s, withObs, false)
 						cases++
 						got := strings.Join(s.log, " ")
 						okSeq := got == strings.Join(want, " ")
-						if !okSeq && s.cancel != nil && len(want) > 0 && strings.HasPrefix(want[len(want)-1], "N") {
-							// the turnover of the last evaluated generation may itself observe the cancellation and
-							// return before that generation is announced; the property only promises "no next generation"
-							okSeq = got == strings.Join(want[:len(want)-1], " ")
+						if !okSeq && s.cancel != nil {
+							want2, wantErr2 := verifC20Expected(runs, gens, s, withObs, true)
+							if got == strings.Join(want2, " ") {
+								okSeq, wantErr = true, wantErr2
+							}
 						}
 						if !okSeq {
 							t.Fatalf("ORACLE-FAIL C20 runs=%d gens=%d solvedAt=%v failAt=(%d,%d) cancelBefore=%v observer=%v:\n  calls: %s\n  want : %s", runs, gens, solved, s.failRun, s.failGen, s.cancelAt, withObs, got, strings.Join(want, " "))
